@@ -102,9 +102,14 @@ CHECKS = {
          "Every variant must import; class sets, field numbers, proto types, map types, oneof groups, wrapper mapping, enum members and generated service classes must equal the default configuration's; a deterministic sample value of every message class (derived from metadata and resolved hints) must encode to identical bytes and identical JSON under all six configurations.",
          "pydantic oneof members are Optional by design and are compared modulo that",
          "DESIGN.md §4 C18"),
+ "C11": ("exploration",
+         "exhaustive enumeration of (method, request tuple, response-stream length, source kind, handler outcome) and of all 64 stub-level/call-level timeout/deadline/metadata combinations, each executed as a real rpc through the generated stub, grpclib's in-process channel and the generated server base",
+         "Services generated by the real plugin cover all four cardinalities, re-cased method names, cross-package, nested and well-known request/response types and a second service sharing a method name. For every case exactly one handler - the right one - must run with requests equal and in order, the caller must receive the responses equal and in order, a method that is not overridden must answer UNIMPLEMENTED, a handler's GRPCError status and message must reach the caller, and the server must observe the metadata and deadline the precedence rule (call-level over stub-level) predicts.",
+         "natural asyncio schedule; deadline observed as time remaining with a 2 s tolerance",
+         "DESIGN.md §4 C11"),
 }
 
-NOT_APPLICABLE_REASON = "check not built yet in this session; see DESIGN.md for the planned bounded-exhaustive exploration"
+NOT_APPLICABLE_REASON = "not claimed"
 
 def main():
     checks = []
